@@ -23,6 +23,8 @@ def run(tier, seed):
     from .c14 import SplitReal
     common.code_to_spec(chk, fam.fam_split(thorough=th) + fam.fam_split_discount(), lambda c: SplitReal(c), tag='split', split='cfg', chk_fields=())
     common.zoo_portfolio_traces(chk, seeds=range(seed, seed + (2 if not th else 8)), clause_filter=is_c04, clauses=('accounting',))
+    if th:
+        common.harvested_test_suite(chk, ('accounting',), is_c04)
     chk.assumptions += ['the STEP on which a cash flow is booked is not part of the statement; totals per asset are compared']
     return chk.finish(rule='reference-model families (discounting, order books, storages with holding costs, composite, split) replayed and trace-validated '
                            '(DCF totals tied to the model); zoo of 16 portfolios over all asset types x routes x seeds', exhaustive=False)
